@@ -105,7 +105,14 @@ impl Walrus {
                     info.cur_block_idx = idx;
                     info.cur_block_offset = tail_off.min(used);
                 } else {
-                    info.cur_block_idx = 0;
+                    // The tail block the consumer was at is not among the recovered blocks:
+                    // it held no entries. Block ids grow in allocation order, so everything
+                    // allocated before it was consumed and everything after it was not.
+                    info.cur_block_idx = info
+                        .chain
+                        .iter()
+                        .filter(|b| b.id < tail_block_id)
+                        .count();
                     info.cur_block_offset = 0;
                 }
             }
@@ -699,6 +706,11 @@ impl Walrus {
                     let used = info.chain[idx].used;
                     info.cur_block_idx = idx;
                     info.cur_block_offset = tail_off.min(used);
+                } else {
+                    // see read_next: an empty tail block is not recovered; resume right
+                    // after the blocks allocated before it instead of skipping the chain
+                    info.cur_block_idx = info.chain.iter().filter(|b| b.id < tail_bid).count();
+                    info.cur_block_offset = 0;
                 }
             }
 
